@@ -124,6 +124,38 @@ int main(int argc, char **argv)
       roundtrip(id++, T, P, 0, rep % 3, key, seed, false, "ff-boundary");
     }
   }
+  else if (mode == "tails")
+  {
+    // plaintexts whose END looks like PKCS#7 padding (or like nothing at all): a decryptor that inspects more
+    // than the final pad byte, strips greedily, or treats 0x00 / 0x10 / 0xFF specially shows here and nowhere else
+    const int S = iobuffer::sum;
+    const int lens[] = {1, 15, 16, 17, 31, 32, 33, S - 1, S, S + 1, S + 16, 2 * S - 1, 2 * S, 2 * S + 15};
+    int k = 0;
+    for (int n : lens)
+      for (int tc = 0; tc < 8; ++tc)
+      {
+        auto P = wv_content(rng, n, 1);
+        auto fill = [&](int cnt, u8_t v)
+        {
+          for (int i = 0; i < cnt && i < n; ++i)
+            P[n - 1 - i] = v;
+        };
+        switch (tc)
+        {
+        case 0: fill(1, 0x01); break;                  // a complete one-byte padding
+        case 1: fill(2, 0x02); break;
+        case 2: fill(16, 0x10); break;                 // a whole padding block
+        case 3: fill(1, 0x10); break;
+        case 4: fill(n, 0x00); break;                  // all zero
+        case 5: fill(3, 0xFF); break;
+        case 6: fill(17, 0x01); break;                 // a run of the pad value longer than the pad
+        case 7: fill(1, (u8_t)(16 - n % 16)); break;   // ends in the very pad byte that encryption will append
+        }
+        std::vector<u8_t> seed = {'t', 'l'};
+        roundtrip(id++, T, P, k % 5, (k / 5) % 3, rng.bytes(16), seed, false, "pad-like-tail");
+        ++k;
+      }
+  }
   else if (mode == "same")
   {
     int chunks = atoi(argv[3]);
